@@ -36,7 +36,12 @@ world_t& world();
 template <class F> struct node_impl : node {
   F f;
   explicit node_impl(F&& ff) : f(std::move(ff)) { run = &do_run; drop = &do_drop; next = nullptr; }
-  static void do_run(node* n) { auto* self = static_cast<node_impl*>(n); F g(std::move(self->f)); delete self; std::move(g)(); }
+#ifdef VK_TRACE
+  static void do_run(node* n) { static int cnt = 0; if (++cnt > 40 && cnt < 60) fprintf(stderr, "H %.900s\n", __PRETTY_FUNCTION__); do_run2(n); }
+#else
+  static void do_run(node* n) { do_run2(n); }
+#endif
+  static void do_run2(node* n) { auto* self = static_cast<node_impl*>(n); F g(std::move(self->f)); delete self; std::move(g)(); }
   static void do_drop(node* n) { delete static_cast<node_impl*>(n); }
 };
 
